@@ -407,6 +407,22 @@ def formula_atoms(f, out=None):
     return out
 
 
+def formula_poly(f):
+    """a formula as a 0/1-valued term (for use as the condition of a conditional term)"""
+    k = f[0]
+    if k == 'true':
+        return Poly.const(1)
+    if k == 'false':
+        return Poly.const(0)
+    if k == 'atom':
+        return Poly.atom(('cmp', f[2], f[1], Poly.const(f[3]).key()))
+    if k == 'bool':
+        return Poly.atom(('cmp', '!=', f[1], Poly.const(0).key()))
+    if k == 'not':
+        return Poly.atom(('not', formula_poly(f[1]).key()))
+    return Poly.atom(('cmp', '&&' if k == 'and' else '||', formula_poly(f[1]).key(), formula_poly(f[2]).key()))
+
+
 def formula_str(f):
     if f[0] == 'true':
         return 'true'
@@ -878,19 +894,24 @@ class _InliningCanon(Canon):
                 return None
         sub = SymExec(sym=sx.sym, fn=sx.fn, resolve=sx.resolve, fold_global=sx.fold_global, lang=sx.lang, unify_divmod=sx.unify_divmod)
         sub.cmp_calls, sub.str_map, sub.ctor_roles = sx.cmp_calls, sx.str_map, sx.ctor_roles
-        sub.inliner, sub.tables = sx.inliner, sx.tables
+        sub.inliner, sub.tables, sub.split_cond = sx.inliner, sx.tables, sx.split_cond
         sub._inline_depth = sx._inline_depth + 1
         sub._this_path = this_path
         try:
             summ = sub.run(e.a[0], f.body, env)
         except AnalysisError:
             return None
-        if len(summ.paths) != 1:
+        if not summ.paths or any(kind != 'return' or res is None or eff for _g, kind, res, eff in summ.paths):
             return None
-        g, kind, res, eff = summ.paths[0]
-        if kind != 'return' or res is None or eff or g != ('true',):
+        if len(summ.paths) == 1:
+            return Poly(dict(summ.paths[0][2])) if summ.paths[0][0] == ('true',) else None
+        if len(summ.paths) > 8:
             return None
-        return Poly(dict(res))
+        # several guarded results: one conditional term  g1 ? r1 : (g2 ? r2 : ... rn)
+        out = Poly(dict(summ.paths[-1][2]))
+        for g, _k, res, _e in reversed(summ.paths[:-1]):
+            out = Poly.atom(('cond', formula_poly(g).key(), res, out.key()))
+        return out
 
     def __call__(self, e):
         if e.k == 'call' and self.sx.resolve is not None:
